@@ -17,6 +17,8 @@ def run_task(task, mod):
     oracles.install()
     oracles.LIST_ORDER = task["params"].get("order", "canonical")
     oracles.FAULT["at"] = None
+    from engine import fine
+    fine.ENABLED["on"] = bool(task["params"].get("fine"))
     net = symnet.family(task["family"])
     skeleton = tuple(task["params"]["skeleton"])
     vs, cs = hist.declare(skeleton, net.n, maxlim=task["params"].get("maxlim", hist.MAXLIM))
